@@ -254,6 +254,9 @@ KvLines  == {KvLine("pair", key, v, c) : key \in KvKeys, v \in KvVals, c \in {FA
             \cup {KvLine("bare", key, <<>>, c) : key \in KvKeys, c \in {FALSE}}
             \cup {KvLine("comment", <<>>, <<>>, FALSE), KvLine("blank", <<>>, <<>>, FALSE)}
 KvInputs(nb) == [lines : SeqsUpTo(KvLines, nb), sep : {<<"=">>}, cc : {<<"#">>}, part : BOOLEAN, filt : {<<>>, A, X}]
+                \cup   \* comment_char None: the lines reach the splitting as they are (indentation, trailing blanks)
+                [lines : SeqsUpTo({ln \in KvLines : ln.t \in {"pair", "bare"} /\ ~ln.c}, nb), sep : {<<"=">>}, cc : {<<>>},
+                 part : BOOLEAN, filt : {<<>>, A}]
 
 ActChars  == {"a", " ", "#"}
 ActInputs(nb) == [lines : SeqsUpTo(SeqsUpTo(ActChars, 4), 1) \cup SeqsOf(SeqsUpTo(ActChars, 2), 2), cc : {<<"#">>}]
@@ -307,6 +310,9 @@ SKws     == {Kw(A, m) : m \in Matchers \cup {<<>>, <<"z">>}} \cup {Kw(<<"a", "_"
 STerms   == {[kw |-> kw, v |-> v] : kw \in SKws, v \in {X, Y, <<"y", "x">>, <<>>}}
 SQueries == {<<>>} \cup {<<t>> : t \in STerms}
             \cup {<<t1, t2>> : t1 \in {t \in STerms : QKey(t.kw) = A /\ t.v = X}, t2 \in {t \in STerms : QKey(t.kw) # A /\ t.v = X}}
+            \* two conditions on the SAME field through different suffixes
+            \cup {<<[kw |-> Kw(A, MStarts), v |-> v1], [kw |-> Kw(A, m), v |-> v2]>> :
+                     v1 \in {X, Y}, m \in {MEnds, MContains, MLower}, v2 \in {X, Y}}
 SearchInputs(nb) ==
     UNION {[rows : SeqsUpTo(SRow(k2), nb), q : SQueries, rkc : (IF k2[2] = "-" THEN BOOLEAN ELSE {FALSE})] : k2 \in SKey2}
 
